@@ -265,6 +265,17 @@ def collect(chk, thorough, n_ends_enum=0, n_ends_nat=0):
                     t.update(start=r["m_start"] if r["m_has_start"] else out["snaps"][0]["stack"][0], acc=r["R"] * r["C"] if r["acc"] == -1 else r["acc"],
                              maxd=2 * r["R"] * r["C"] if r["maxd"] == -1 else r["maxd"], forks=r["forks"], rnd=r["rnd"], m_vis=r["m_vis"], m_fully=r["m_fully"])
                     tr_dfs.append(t)
+    # ---- the repository's own tests as a driver: every generator call they make is one more observed case
+    try:
+        from harness import repo_tests
+
+        g, _sp, summ = repo_tests.observe_dirs(thorough)
+        for r in g:
+            r.setdefault("seed", -1)
+        recs += g
+        stats["repo_tests"] = dict(dirs=summ, generator_calls=len(g))
+    except Exception as e:  # noqa: BLE001 - an extra driver, never a reason to fail the check
+        stats["repo_tests"] = dict(error=repr(e)[:200])
     return recs, raised, tr_dfs, tr_wil, stats
 
 
